@@ -23,6 +23,7 @@ Sim::Sim(const Plan& p, bool keep_trace)
     broker.knobs = p.knobs.broker;
     sim::TimerRegistry::reset();
     sim::g_resolver = &resolver;
+    net.stall_cb = [this](ns_t d) { w.now += d; w.stall_total += d; mark(MarkKind::stall, -1, d); w.count("fault.stall"); };
 
     resolver.policy = [this](const std::string& host, const std::string& port, int nth) {
         sim::ResolveDecision d;
@@ -435,6 +436,7 @@ void Sim::exec_step(const Step& s, ns_t* next_override) {
         for (int i = 0; i < std::max(1, s.b); ++i) broker.session_present_script.push_back(s.a);
         break;
     case SK::FStall:
+        if (s.b == 1) { if (!healed) net.stall_on_next_arrival = s.t; break; }     // variant: stall right after the next bytes from the broker arrived
         w.now += s.t; w.stall_total += s.t;
         mark(MarkKind::stall, -1, s.t);
         w.count("fault.stall");
